@@ -14,7 +14,7 @@ def _pts(env, prj, zones):
     for zone in zones:
         pts.append((zone, _f(env.get('east'), 400000.0), _f(env.get('north'), 6000000.0)))
         for de in (-2800000.0, -1500000.0, -200000.0, 0.0, 0.001, 150000.0, 2500000.0, 3300000.0):
-            for n in (1.0, 400000.0, 2500000.0, 5000000.0, 7300000.0, 9300000.0, 9999999.0):
+            for n in (1.0, 400000.0, 2500000.0, 5000000.0, 7300000.0, 9300000.0, 9999999.0, 0.0, float(prj.falsenorth)):      # incl. the equator exactly
                 pts.append((zone, prj.falseeast + de, n))
     return pts
 
@@ -108,9 +108,15 @@ def standalone(a):
     from geodepy.convert import grid2geo
     m = _standalone()
     worst, where = 0, None
+    env = a.get('env', {})
+    pts = [(int(_f(env.get('zone'), 55)), _f(env.get('east'), 500000.0), _f(env.get('north'), 6000000.0))]
     for zone in (46, 50, 55, 59):
-        for e in (100000.0, 232681.853, 500000.0, 899999.0, -1200000.0, 2600000.0):
+        for e in (100000.0, 232681.853, 500000.0, 899999.0, -1200000.0, 2600000.0, -2830000.0, 3830000.0, -2000000.0, 3000000.0):
             for n in (1100000.0, 3456789.123, 5828259.038, 7654321.0, 9500000.0):
+                pts.append((zone, e, n))
+    for zone, e, n in pts:
+        if True:
+            if True:
                 try:
                     lat, lon, _, _ = grid2geo(zone, e, n, 'south')
                 except ValueError:
